@@ -5,6 +5,7 @@ CONSTANTS
   RegVals = {1, 4}
   SingVals = {3, 4}
   MassCacheKeyed = FALSE
+  MassHonoursExplicit = TRUE
   MaxDepth = 1000
   EmitJson = FALSE
 INVARIANT TypeOK
